@@ -55,7 +55,7 @@ def build(spec, counter, expected, prefix_fn):
             for rec in sub_expected:
                 # the sentence of the property: [b + s/r, b + e/r), width x r, window name prefixed
                 assert rec["start"] % ratio == 0 and rec["end"] % ratio == 0
-                path = rec["path"] if name is None else ((name,) if isinstance(name, str) else (tuple(name),)) + rec["path"]
+                path = rec["path"] if name is None else (((name,),) if isinstance(name, str) else (tuple(name),)) + rec["path"]
                 expected.append(prefix_fn(dict(resource=rec["resource"], start=b + rec["start"] // ratio,
                                                end=b + rec["end"] // ratio, width=rec["width"] * ratio, path=path)))
     return mm
@@ -72,6 +72,10 @@ def check_tree(spec, tier, seed):
         root = build(spec, [0], expected, lambda rec: rec)
     except ValueError as e:
         return dict(refused=True, msg=str(e)[:100])
+    except Exception as e:
+        # building the tree only makes legitimate API calls (adds and queries)
+        return dict(violation=dict(kind="tree", err=dict(msg=f"while building the tree: {type(e).__name__}: {e}"),
+                                   signature=dict(kind="oracle", what="internal_error")), evaluations=0)
     stranger = res()
     evals = 0
     expected.sort(key=lambda r: r["start"])
@@ -174,6 +178,17 @@ def configs(tier):
                             mid = dict(aw=4, dw=mid_dw, al=0, items=mid_items)
                             items = [("res", 2, None), ("win", mid, mid_kind, nm_mid, None), ("res", 1, None)]
                             out.append(dict(aw=max(root_aw, 6) if root_aw < 6 else 6, dw=root_dw, al=0, items=items))
+            # ---- four levels: root -> m1 -> m2 -> leaf, and two sibling windows inside m1 ------------------
+            if not quick or root_dw == 32:
+                for k1, d1 in [("same", root_dw)] + [("sparse", sd) for sd in (16,) if sd < root_dw]:
+                    for k2, d2 in [("same", d1)] + [("sparse", sd) for sd in (8,) if sd < d1]:
+                        inner = [("same", d2, 0)] + ([("dense", 8, (d2 // 8).bit_length() - 1)] if d2 // 8 in (2, 4, 8) else [])
+                        for (ik, idw, ial), n1, n2 in itertools.product(inner, names[:2], (None, ("x", 1))):
+                            leaf = leafs(idw, 2, ial)[1 if ial == 0 else 3]
+                            m2 = dict(aw=3, dw=d2, al=0, items=[("res", 1, None), ("win", leaf, ik, n2, None)])
+                            sib = leafs(d1, 1, 0)[0]
+                            m1 = dict(aw=5, dw=d1, al=0, items=[("win", sib, "same", "sib", None), ("win", m2, k2, n1, None), ("res", 2, None)])
+                            out.append(dict(aw=7, dw=root_dw, al=0, items=[("res", 3, None), ("win", m1, k1, "top", None), ("res", 1, None)]))
             # ---- explicit window addresses (multiples of the window size), two windows, reversed order ----
             l1, l2 = leafs(root_dw, 2, 0)[1], leafs(root_dw, 1, 0)[0]
             out.append(dict(aw=root_aw, dw=root_dw, al=0, items=[("win", l1, "same", "a", 8), ("win", l2, "same", None, 2), ("res", 1, 0)]))
